@@ -11,16 +11,16 @@ def repo_commits():
 # id -> (level, technique, text, note, design_ref)
 CHECKS = {
  "C01": ("model_checking", "explicit-state BFS over the real Cli to closure; dispatch oracle = reference tokeniser on the hooked line",
-         "Breadth-first exploration of every reachable state of the real Cli (small command/history buffers, 12-key alphabet incl. 1-4 byte characters, editing, recall, completion) to fix-point; on every transition the handler-call count, the received name/arguments, the cleared line and the single fresh prompt are compared with the reference tokeniser applied to the line read through the hook just before Enter. Scale run: lines of up to 129 tokens / 257 bytes in a 300-byte buffer built by checked prefill, every cursor position of them a start of a depth-2 search. Endurance run: ~200 000 keys of repeated cycles, every step under the monitors. Two instances: every interleaving of <= 3-5 events between two fresh Cli instances, each compared with its solo run.",
+         "Breadth-first exploration of every reachable state of the real Cli (small command/history buffers, 12-key alphabet incl. 1-4 byte characters, editing, recall, completion) to fix-point; on every transition the handler-call count, the received name/arguments, the cleared line and the single fresh prompt are compared with the reference tokeniser applied to the line read through the hook just before Enter. Scale run: lines of up to 129 tokens / 257 bytes in a 300-byte buffer built by checked prefill, every cursor position of them a start of a depth-2 search. Endurance run: ~200 000 keys of repeated cycles, every step under the monitors. Two instances: every interleaving of <= 3-5 events (and, in C01 and C05, every sandwich A^i B^j A^k of five events) between two fresh Cli instances, each compared with its solo run.",
          "Closure is per (cb,hb) configuration listed in the evidence; alphabets are representative (one character per UTF-8 length). Reference tokeniser/classifier (refs.rs) trusted.", "4 C01"),
  "C05": ("model_checking", "explicit-state BFS over the real Cli to closure; lock-step ideal editor (Vec<char>, cursor)",
-         "All reachable editor states for cb 0..=6 (thorough 0..=8) under insert of 1/2/3/4-byte characters, Backspace, Left, Right, plus configurations where recall/completion/submission replace the line; after every byte the hooked (text,cursor) must equal the ideal editor's. Scale run: lines of 7..258 bytes of 1/2/3/4-byte characters in a 258-byte buffer (thorough: 66..515), built by checked prefill, every cursor position a start of a depth-2 search. Endurance run: ~200 000 keys of repeated cycles, every step under the monitors. Two instances: every interleaving of <= 3-5 events between two fresh Cli instances, each compared with its solo run.",
+         "All reachable editor states for cb 0..=6 (thorough 0..=8) under insert of 1/2/3/4-byte characters, Backspace, Left, Right, plus configurations where recall/completion/submission replace the line; after every byte the hooked (text,cursor) must equal the ideal editor's. Scale run: lines of 7..258 bytes of 1/2/3/4-byte characters in a 258-byte buffer (thorough: 66..515), built by checked prefill, every cursor position a start of a depth-2 search. Endurance run: ~200 000 keys of repeated cycles, every step under the monitors. Two instances: every interleaving of <= 3-5 events (and, in C01 and C05, every sandwich A^i B^j A^k of five events) between two fresh Cli instances, each compared with its solo run.",
          "One representative character per encoded length; closure per buffer size; poison differential validates the canonical key.", "4 C05"),
  "C06": ("model_checking", "explicit-state BFS over the real Cli with a lock-step VT100 line emulator; API calls interleaved at key and byte granularity",
-         "Every sink byte of every explored transition is fed to an ECMA-48 line emulator; after every API call (each process_byte, write, set_prompt) the emulated line must be prompt+line and the emulated cursor the editor cursor. Alphabet includes Cli::write, set_prompt (3 prompts), handler output, handler prompt change, one-byte-per-call sink, and a byte-granular run where API calls land inside escape sequences and multi-byte characters. Scale run: lines of up to 257 (513) characters in a 300 (515) byte buffer, every cursor position x every event (typing, recall, Tab, Enter, Cli::write, set_prompt), so cursor-movement counts of 10, 100, 256 occur. Endurance run: ~200 000 keys of repeated cycles, every step under the monitors. Two instances: every interleaving of <= 3-5 events between two fresh Cli instances, each compared with its solo run.",
+         "Every sink byte of every explored transition is fed to an ECMA-48 line emulator; after every API call (each process_byte, write, set_prompt) the emulated line must be prompt+line and the emulated cursor the editor cursor. Alphabet includes Cli::write, set_prompt (3 prompts), handler output, handler prompt change, one-byte-per-call sink, and a byte-granular run where API calls land inside escape sequences and multi-byte characters. Scale run: lines of up to 257 (513) characters in a 300 (515) byte buffer, every cursor position x every event (typing, recall, Tab, Enter, Cli::write, set_prompt), so cursor-movement counts of 10, 100, 256 occur. Endurance run: ~200 000 keys of repeated cycles, every step under the monitors. Two instances: every interleaving of <= 3-5 events (and, in C01 and C05, every sandwich A^i B^j A^k of five events) between two fresh Cli instances, each compared with its solo run.",
          "Infinite-width terminal, display width 1 per scalar; emulator (base.rs) trusted; closure per configuration.", "4 C06"),
  "C10": ("model_checking", "explicit-state BFS over the real Cli to closure; deque reference compared with the raw history buffer via refinement mapping",
-         "Closure over submissions/Up/Down/editing for every cb 0..=3 x hb 0..=7 (+ larger thorough configs); in every transition the NUL-split raw history buffer must equal the reference deque (dedupe, oldest-first minimal eviction, no recording of empty/oversize lines) and Up/Down must show exactly the reference entry. Scale run: history buffers of 258 (66..515) bytes filled by checked prefill with ~100 short entries, entries of increasing length and four long entries (offsets beyond 255, evictions of several entries, re-submission of old and recent entries, lines of exactly the history size), then a depth-2 search from each. Endurance run: ~200 000 keys of repeated cycles, every step under the monitors. Two instances: every interleaving of <= 3-5 events between two fresh Cli instances, each compared with its solo run.",
+         "Closure over submissions/Up/Down/editing for every cb 0..=3 x hb 0..=7 (+ larger thorough configs); in every transition the NUL-split raw history buffer must equal the reference deque (dedupe, oldest-first minimal eviction, no recording of empty/oversize lines) and Up/Down must show exactly the reference entry. Scale run: history buffers of 258 (66..515) bytes filled by checked prefill with ~100 short entries, entries of increasing length and four long entries (offsets beyond 255, evictions of several entries, re-submission of old and recent entries, lines of exactly the history size), then a depth-2 search from each. Endurance run: ~200 000 keys of repeated cycles, every step under the monitors. Two instances: every interleaving of <= 3-5 events (and, in C01 and C05, every sandwich A^i B^j A^k of five events) between two fresh Cli instances, each compared with its solo run.",
          "Forks allowed where the statement is silent: Down while not navigating, navigation position after an unrecorded Enter.", "4 C10"),
  "C15": ("model_checking", "explicit-state BFS over the real Cli; write/flush event order monitor on every call",
          "The recording sink logs write and flush calls; after every successful API call of every explored transition (the C06 sessions - typing, recall, completion, handler output, Cli::write, set_prompt, one-byte sink, byte-granular - plus sessions over a derived enum and a command group that print help listings, command help, parse errors and handler errors) no written byte may follow the last flush.",
